@@ -136,6 +136,31 @@ func TestVerifC41Stress(t *testing.T) {
 			}(l)
 		}
 		wg.Wait()
+		// phase 2, "hot segment storm": many fetchers hit the SAME few offsets while another keeps evicting them,
+		// so that cache misses, re-fills of a key that is live again, hits and prefetch stores of one key overlap.
+		for f := 0; f < 10; f++ {
+			frng := rand.New(rand.NewSource(rng.Int63()))
+			wg.Add(1)
+			go func(f int) {
+				defer wg.Done()
+				for i := 0; i < 30; i++ {
+					off := int64(frng.Intn(3))
+					if f >= 8 { // the evictors walk the rest of the log
+						off = int64(3 + frng.Intn(40))
+					}
+					res := plogExec(h, inst, 300+f, i, plogReq{Kind: "fetch", Topic: "t", Partition: 0, Offset: off, MaxBytes: 1 << 20})
+					if res.Err == "" && res.Code == 0 {
+						var x byte
+						for _, c := range res.Records {
+							x ^= c
+						}
+						_ = x
+						fetchedBytes.Add(int64(len(res.Records)))
+					}
+				}
+			}(f)
+		}
+		wg.Wait()
 		time.Sleep(5 * time.Millisecond) // let prefetch goroutines finish
 		h.coordinator.Stop()
 		// path coverage: the S3 event log tells how reads were served
